@@ -38,7 +38,8 @@ def build_scheduler(name, seed, mode, max_resource_attr=False):
     if name == "dehb":
         from syne_tune.optimizer.schedulers.synchronous import GeometricDifferentialEvolutionHyperbandScheduler
         return GeometricDifferentialEvolutionHyperbandScheduler(space, resource_attr="epoch", max_resource_level=MAX_T,
-                                                                grace_period=1, reduction_factor=3, **kw)
+                                                                grace_period=1, reduction_factor=3,
+                                                                brackets=1 + seed % 3, **kw)
     if name == "median_rule":
         from syne_tune.optimizer.schedulers.fifo import FIFOScheduler
         from syne_tune.optimizer.schedulers.median_stopping_rule import MedianStoppingRule
@@ -48,18 +49,21 @@ def build_scheduler(name, seed, mode, max_resource_attr=False):
         from syne_tune.optimizer.schedulers.pbt import PopulationBasedTraining
         return PopulationBasedTraining(space, resource_attr="epoch", max_t=MAX_T, population_size=3,
                                        perturbation_interval=2, **kw)
+    # synchronous family: rung levels 1, 3, 9; the number of brackets per iteration is drawn from 1..3
     if name == "sync_hyperband":
         from syne_tune.optimizer.schedulers.synchronous import SynchronousGeometricHyperbandScheduler
         return SynchronousGeometricHyperbandScheduler(space, searcher="random", resource_attr="epoch",
-                                                      max_resource_level=MAX_T, grace_period=1, reduction_factor=3, **kw)
+                                                      max_resource_level=MAX_T, grace_period=1, reduction_factor=3,
+                                                      brackets=1 + seed % 3, **kw)
     raise ValueError(name)
 
 
 SCHEDULERS = ["fifo_random", "hyperband_stopping", "hyperband_promotion", "hyperband_pasha", "hyperband_rush_promotion",
               "hyperband_cost_promotion", "median_rule", "pbt", "sync_hyperband", "dehb"]
-# the synchronous family aborts runs after ordinary failures (known findings F-C13-2 / F-C13-3, property C13):
-# failures are switched off for it here so that this stream judges C01 / C12 only
-NO_FAILURES = ("sync_hyperband", "dehb")
+# the synchronous family aborts runs when a rung has fewer valid results than the next rung has slots (known findings
+# F-C13-2 / F-C13-3, property C13). With rung sizes 9 -> 3 -> 1 every rung has at least 2 more slots than the next
+# one, so ONE failed job per run keeps that condition out while failures (both modes) are still exercised
+FEW_FAILURES = ("sync_hyperband", "dehb")
 
 
 def gen_real_case(rng):
@@ -71,8 +75,10 @@ def gen_real_case(rng):
                    dt=rng.choice([0.0, 1.0]), max_epochs=MAX_T, p_complete=0.02,
                    p_fail=rng.choice([0.0, 0.03, 0.1]), p_stop_ext=rng.choice([0.0, 0.02]),
                    p_stopping=rng.choice([0.0, 0.03]))
-    if name in NO_FAILURES:
-        profile.update(p_fail=0.0, p_stop_ext=0.0)
+    if name in FEW_FAILURES:
+        profile.update(p_fail=rng.choice([0.0, 0.1, 0.2]), p_stop_ext=0.0, max_failed_total=1,
+                       polls=rng.choice([25, 40, 60]))
+        params["max_failures"] = rng.choice([1, 3, 50])
     return dict(kind="real", scheduler=name, mode=rng.choice(["min", "max"]), sched_seed=rng.randrange(1000),
                 params=params, profile=profile, seed=rng.getrandbits(48))
 
